@@ -1,6 +1,7 @@
 //! C10 — Arena memory is reclaimed: no leak after drop, bounded footprint in streaming.
 use owning_iovec::ByteArena;
 use proptest::prelude::*;
+use serde::{Deserialize, Serialize};
 use serde_json::{json, Value};
 
 use super::codec::{self, CodecCase};
@@ -40,6 +41,61 @@ fn leak_checked(what: &str, f: impl FnOnce() -> CaseResult) -> CaseResult {
         ));
     }
     Ok(outcome)
+}
+
+/// Several threads, each working on arena-backed objects entirely of its own (nothing is shared or
+/// moved between them), all at the same time: once every thread is joined and every object
+/// dropped, the process-wide counters must be back where they were.  The interleaving is the
+/// operating system's, so a lost update is found with some probability only; a difference after
+/// the join is nevertheless hard evidence (nothing else touches the counters in this process).
+#[derive(Clone, Debug, PartialEq, Eq, Hash, Serialize, Deserialize)]
+pub struct ConcurrentCase {
+    pub threads: u8,
+    pub rounds: u16,
+    /// Arena request size of thread t in round r is `16 + ((t + 1) * (r + 1) * size_mul) % 6000`.
+    pub size_mul: u16,
+}
+
+pub fn check_concurrent(case: &ConcurrentCase) -> CaseResult {
+    // Long-lived objects keep the counters well away from zero for the duration.
+    let parked: Vec<ByteArena> = (0..8)
+        .map(|_| {
+            let mut a = ByteArena::new();
+            a.ensure_capacity(64);
+            a
+        })
+        .collect();
+    let r = leak_checked("independent objects on concurrent threads", || {
+        let threads = case.threads.clamp(2, 12) as usize;
+        let rounds = case.rounds as usize;
+        let mul = case.size_mul as usize;
+        let go = std::sync::Arc::new(std::sync::Barrier::new(threads));
+        let handles: Vec<_> = (0..threads)
+            .map(|t| {
+                let go = go.clone();
+                std::thread::spawn(move || {
+                    go.wait();
+                    for r in 0..rounds {
+                        let size = 16 + ((t + 1) * (r + 1) * mul) % 6000;
+                        let mut arena = ByteArena::new();
+                        arena.ensure_capacity(size);
+                        if r % 4 == 0 {
+                            let mut io = owning_iovec::OwningIovec::new();
+                            io.push_copy(&[t as u8; 80]);
+                            drop(io);
+                        }
+                        drop(arena);
+                    }
+                })
+            })
+            .collect();
+        for h in handles {
+            h.join().map_err(|_| Fail::new("panic:concurrent", "a thread working on its own arenas panicked".to_string()))?;
+        }
+        Ok(Outcome::new(threads >= 4 && rounds >= 1000))
+    });
+    drop(parked);
+    r
 }
 
 pub fn check_codec(case: &CodecCase) -> CaseResult {
@@ -255,6 +311,10 @@ pub fn run(ctx: &Ctx, rep: &mut Report) {
     engine::drive(ctx, rep, "leak:iovec-histories", iovec_sm::history(Mix::Memory, 60), cases, check_history);
     let cases = ctx.share(ctx.tier.pick(4_000, 200_000));
     engine::drive(ctx, rep, "leak:iovec-general", iovec_sm::history(Mix::General, 80), cases, check_history);
+    // Threads working on objects of their own, at the same time.
+    let cases = ctx.share(ctx.tier.pick(160, 4_000));
+    let concurrent = (2u8..10, prop_oneof![1000u16..6000, 10_000u16..30_000], any::<u16>()).prop_map(|(threads, rounds, size_mul)| ConcurrentCase { threads, rounds, size_mul });
+    engine::drive(ctx, rep, "leak:concurrent-independent-objects", concurrent, cases, check_concurrent);
     // The same histories with every third operation, and every other drop, on another thread.
     let cases = ctx.share(ctx.tier.pick(3_000, 100_000));
     engine::drive(ctx, rep, "leak:iovec-thread-handoff", iovec_sm::history(Mix::Memory, 60), cases, |h: &History| iovec_sm::with_thread_handoff(|| check_history(h)));
@@ -297,6 +357,7 @@ fn replay(_ctx: &Ctx, group: &str, case: &Value) -> CaseResult {
         "leak:stream-chunker" => check_chunker(&parse_case::<c08::Case>(case)?),
         "footprint" => check_footprint(&parse_case::<StreamCase>(case)?),
         "footprint:stream-reader" => check_reader_footprint(&parse_case::<ReaderFootprintCase>(case)?),
+        "leak:concurrent-independent-objects" => check_concurrent(&parse_case::<ConcurrentCase>(case)?),
         "leak:iovec-thread-handoff" => iovec_sm::with_thread_handoff(|| check_history(&parse_case::<History>(case)?)),
         _ => check_history(&parse_case::<History>(case)?),
     }
@@ -305,7 +366,7 @@ fn replay(_ctx: &Ctx, group: &str, case: &Value) -> CaseResult {
 pub fn def() -> PropDef {
     PropDef {
         id: "C10",
-        rule: "Single-threaded worker processes (the counters are process-wide). leak:* groups (leak:iovec-thread-handoff executes every third operation and every other drop on a fresh thread, one thread at a time: the objects are Send): a generated history (C05's OwningIovec / AnchoredSlice state machine with clones, takes, arena swaps, held anchors; C01's Encoder/Decoder feeding and draining plans; C06's StreamReader and C08's StreamChunker runs) is executed, every object is dropped in a generated order, and (num_live_chunks, num_live_bytes) must equal their values before the case. footprint:stream-reader: streams of 8..24 MiB (16..256 MiB in thorough) of delimited records (empty, one byte, invalid at the first byte, 300 B, 5000 B, 70000 B, extra delimiters; one kind dominating or an arbitrary mixture) read record by record through one StreamReader with block sizes 4 KiB / 64 KiB / 256 KiB / default, live bytes sampled after every record against 4 MiB + 2 blocks and first-half / second-half growth. footprint: streams of 16..40 MiB (32..512 MiB in thorough) of four shapes through Encoder, Decoder or an Encoder->Decoder pipeline, fed in phases of pieces of 1 B..1 MiB with all input methods, the consumer draining everything consumable after every call (or every 2nd / 3rd call, with the bound raised by what may be left unconsumed); live arena bytes are sampled after every call: the peak must stay below 4 MiB per codec and the peak over the second half of the stream must not exceed the peak over the first half by more than one chunk (1 MiB) plus what the calls between two drains can add (2 x every x largest piece) - a leak of one chunk per arena turnover fails on these lengths. Non-trivial: (leak) a history with a clone, a taken / swapped arena, or an anchor left behind a partially consumed slice; (footprint) stream >= 16 MiB. Distinct: hash of the serialised case.",
+        rule: "Single-threaded worker processes (the counters are process-wide). leak:* groups (leak:concurrent-independent-objects runs 2..9 threads at once, each creating and dropping thousands of arenas and iovecs of its own - nothing shared, nothing moved - and compares the counters after joining them all; leak:iovec-thread-handoff executes every third operation and every other drop on a fresh thread, one thread at a time: the objects are Send): a generated history (C05's OwningIovec / AnchoredSlice state machine with clones, takes, arena swaps, held anchors; C01's Encoder/Decoder feeding and draining plans; C06's StreamReader and C08's StreamChunker runs) is executed, every object is dropped in a generated order, and (num_live_chunks, num_live_bytes) must equal their values before the case. footprint:stream-reader: streams of 8..24 MiB (16..256 MiB in thorough) of delimited records (empty, one byte, invalid at the first byte, 300 B, 5000 B, 70000 B, extra delimiters; one kind dominating or an arbitrary mixture) read record by record through one StreamReader with block sizes 4 KiB / 64 KiB / 256 KiB / default, live bytes sampled after every record against 4 MiB + 2 blocks and first-half / second-half growth. footprint: streams of 16..40 MiB (32..512 MiB in thorough) of four shapes through Encoder, Decoder or an Encoder->Decoder pipeline, fed in phases of pieces of 1 B..1 MiB with all input methods, the consumer draining everything consumable after every call (or every 2nd / 3rd call, with the bound raised by what may be left unconsumed); live arena bytes are sampled after every call: the peak must stay below 4 MiB per codec and the peak over the second half of the stream must not exceed the peak over the first half by more than one chunk (1 MiB) plus what the calls between two drains can add (2 x every x largest piece) - a leak of one chunk per arena turnover fails on these lengths. Non-trivial: (leak) a history with a clone, a taken / swapped arena, or an anchor left behind a partially consumed slice; (footprint) stream >= 16 MiB. Distinct: hash of the serialised case.",
         assumptions: &["arena requests <= 1 MiB in the footprint runs", "the footprint bound is a constant with margin (probed peaks: ~2 MiB per codec), not a minimum"],
         exhaustive_note: None,
         shards: |_t: Tier| 16,
